@@ -110,6 +110,11 @@ fn run_c14_one<D: Dgu>(c: &C14) -> R {
     } else {
         format!("{}::{}({})", D::NAME, c.gen, c.a)
     };
+    let call = if ["trivial", "claw", "utility"].contains(&c.gen.as_str()) {
+        format!("{}::{}()", D::NAME, c.gen)
+    } else {
+        call
+    };
     match gen_model(&c.gen, c.a, c.b) {
         None => {
             ensure!(
@@ -145,7 +150,7 @@ impl Case for C14 {
         if self.gen == "biclique" {
             f.push(("m".into(), J::u(self.a)));
             f.push(("n".into(), J::u(self.b)));
-        } else {
+        } else if !["trivial", "claw", "utility"].contains(&self.gen.as_str()) {
             f.push(("order".into(), J::u(self.a)));
         }
         f
